@@ -937,8 +937,11 @@ def constructors(check, prog):
         if any(t[0] == 'cmp' and t[1] in ('!=', '==') and pol == (t[1] == '!=') and
                ('tuple', (num(3),)) in (t[2], t[3]) and
                any(x == ('call', 'numpy.shape', (sym('center'),), ())
-                   for x in subterms(t)) for t, pol in o.cond) and \
-                'center is not None' in txt:
+                   for x in subterms(t)) for t, pol in o.cond) and any(
+                    # ... asked of a centre that is given (not of None)
+                    (t == ('cmp', 'is not', sym('center'), NONE) and pol) or
+                    (t == ('cmp', 'is', sym('center'), NONE) and not pol)
+                    for t, pol in norm_cond(o.cond)):
             ok = True
     check.require(ok, 'K5-rejections', 'CenteredScatterer.__init__ center',
                   'a centre whose shape is not (3,) raises InvalidScatterer',
